@@ -171,3 +171,28 @@ def concretise_cp(c, alphabet):
 def SC(k, alphabet, *cps):
     """like S(), with every code point concretised over the finite alphabet"""
     return ''.join([chr(concretise_cp(c, alphabet)) for c in cps[:k]])
+
+
+def cell(c, name):
+    """partition on one code point: job parameter <name> = ['in', chars] or ['notin', chars]; absent = unconstrained.
+    A job list that uses ['in', X1], ..., ['in', Xn], ['notin', X1+...+Xn] covers every code point exactly once."""
+    spec = P(name, None) if name in L.PARAMS else None
+    if spec is None:
+        return True
+    kind, chars = spec
+    hit = False
+    for a in chars:
+        if c == ord(a):
+            hit = True
+    return hit if kind == 'in' else not hit
+
+
+def cells(name, groups, base):
+    """base x (one cell per group of characters + the complement of all of them)"""
+    allc = ''.join(groups)
+    out = []
+    for b in base:
+        for g in groups:
+            out.append(dict(b, **{name: ['in', g]}))
+        out.append(dict(b, **{name: ['notin', allc]}))
+    return out
